@@ -12,12 +12,42 @@ CHECK_DEADLOCK FALSE
 """
 
 
+GEN_CFG = """SPECIFICATION Spec
+CONSTANTS
+  Bug = "none"
+  MaxLen = %d
+  DumpCases = TRUE
+  Uni = "small"
+INVARIANTS ElemsDenoteSame ElemsSubset RebuildSame
+CONSTRAINT Dump
+CHECK_DEADLOCK FALSE
+"""
+
+
 def check(c):
+    import json
     thorough = c.tier == "thorough"
     c.build_driver()
     # M: the round-trip lemma on the radix model: what Elems lists denotes exactly what was inserted,
     #    and a tree rebuilt from Elems answers identically
-    c.model_check("RadixMC", RADIX_CFG, tag="RadixMC_roundtrip")
+    cases, uni = c.path("rt_cases.ndjson"), c.path("rt_universe.json")
+    c.parallel([lambda: c.model_check("RadixMC", RADIX_CFG, tag="RadixMC_roundtrip", workers=8),
+                lambda: c.model_check("RadixMC", GEN_CFG % (4 if thorough else 3), tag="RadixMC_roundtrip_small",
+                                      env={"OUT_FILE": cases, "UNIVERSE_FILE": uni}, workers=8, timeout=3000)], max_workers=2)
+    # G: every insertion sequence of the 40-pattern sub-universe: NewMiddleware(list) vs NewMiddleware(*Config()) vs the original after
+    #    Reconfigure(Config()), on all 84 probe origins (real vs real)
+    summ = c.path("rt_gen.json")
+    c.run_driver(["c01gen", "-universe", uni, "-cases", cases, "-out", summ, "-roundtrip"], timeout=3000)
+    s = json.load(open(summ))
+    for mm in (s["rt_mismatches"] or [])[:20]:
+        c.violation("Config() round trip changes the allowed origins: patterns %s: %s" % (mm["patterns"], mm["why"]), mm)
+    for mm in (s["mismatches"] or [])[:5]:
+        # (after Reconfigure(Config()) the original no longer answers what the patterns denote)
+        c.violation("after Reconfigure(Config()): origin %s, patterns %s: allowed should be %s" % (mm["origin"], mm["patterns"], mm["expected_allowed"]), mm)
+    c.cov["evaluations"] += s["evaluations"]
+    c.cov["distinct_nontrivial"] += s["nontrivial"]
+    c.cov["traces_validated_against_impl"] += s["rt_cases"]
+    c.cov["tlc_enumerated_pattern_lists_round_tripped"] = s["rt_cases"]
     tot = lifelib.run_life(c, [["-mode", "roundtrip", "-n", "400" if thorough else "120"]] * (4 if thorough else 1),
                            "Config() round trip is not a no-op / constructors disagree")
     c.cov["rule"] = ("seeded accepted configurations (IPv4 / bracketed IPv6 / trailing-dot hosts, wildcard ports and subdomains, "
